@@ -28,6 +28,14 @@ CHECKS = {
          "Model-based property test of commit/rollback histories: a snapshot tree plus a model of the change-record directory predicts the exact state (contents, deleted slots, stamp) after every commit, rollback(), rollback_before(s), re-import and continuation, for all formats and retention settings 1..12.",
          "Rollbacks are issued from clean committed states only and no plain write() happens between commits (as the property states); trusts the snapshot model.",
          "stateful model-based property testing (proptest) with snapshot-tree oracle", "DESIGN.md §4 C04, §3 E3"),
+ "C07": ("E3-vecmodel", "exploration",
+         "Model-based property test restricted to compressed formats plus a structural parser of the on-disk page index (read through rawdb, independent of vecdb's own Pages code) run after every write and re-import; values are compared bit-exactly.",
+         "Trusts the independent page-index parser (16-byte little-endian entries, high bit of the count = raw flag) and the model.",
+         "stateful property testing with bit-exact round-trip oracle + on-disk structural invariant", "DESIGN.md §4 C07"),
+ "C13": ("E1-rawmodel + E3-vecmodel", "exploration",
+         "Generated histories with deliberately refused requests interleaved; after each refusal the full observable state must equal the state before, and every later operation must match the model and (rawdb) a twin database that never saw the refused calls.",
+         "Refused requests are the ones the property lists; retain_regions over a still-referenced region (a composite of several removals) is not generated. Lock/IO errors cannot be provoked through the API.",
+         "stateful property testing with no-effect oracle (before/after snapshot + twin differential)", "DESIGN.md §4 C13"),
 }
 WIP = "check not built yet in this session (work in progress, see DESIGN.md §4 for the planned generated-input check)"
 
